@@ -165,6 +165,9 @@ def draw_history(cs, cfg):
     sc["cycle_len"] = cs.randint(1, 3, "cycle_len")
     sc["release"] = [cs.draw(3, "rel") for _ in range(3)]
     sc["opseed"] = cs.draw(1000, "opseed")
+    # the user's object keeps a differentiable tensor derived from the result (model.loss = f(y)): the object then
+    # reaches the functional's autograd node, which holds the object's method - a cycle through the C++ graph
+    sc["cache_on_object"] = sc["family"] != 2 and cs.bool("cache_on_object", 1, 10)
     return sc
 
 
@@ -218,6 +221,9 @@ def _one_call_body(sc, env):
     else:
         loss = C10.run_functional(env, F)
         leaves = C10.leaves_of(env)
+    if sc.get("cache_on_object") and env is not None and env.actors and loss.requires_grad:
+        env.actors[0].__dict__["cached_result"] = loss * 1.0
+        SIM.count("reach.result_cached_on_the_object")
     keep = [loss]
     if sc["usage"] != "fwd" and loss.requires_grad and leaves:
         cg = sc["usage"] == "bwd2"
@@ -246,7 +252,7 @@ def run(cs, cfg):
     label = (F["F"], str(F.get("method", F.get("product", F.get("limits", "")))))
     kind = C10.kind_label(sc) if sc["family"] != 2 else "grid"
     decoded = {"functional": label, "kind": kind, "fkind": sc["fkind"], "usage": sc["usage"], "debug_mode": sc.get("debug_on"),
-               "persistent_object": sc["persist"], "cycle_len": sc["cycle_len"], "release_order": sc["release"],
+               "persistent_object": sc["persist"], "result_cached_on_object": bool(sc.get("cache_on_object")), "cycle_len": sc["cycle_len"], "release_order": sc["release"],
                "n": sc["n"]}
     from xitorch.debug.modes import set_debug_mode
     set_debug_mode(bool(sc.get("debug_on")))
@@ -308,7 +314,8 @@ def run(cs, cfg):
             new = describe_new(idsets[1])
             per_call = min(x for x in post if x > 0) / float(sc["cycle_len"])
             viol.append({"sig": {"inv": "tensor_growth", "functional": label[0], "usage": sc["usage"],
-                                 "adaptive": str(label[1] in ("rk23", "rk45")), "debug": str(bool(sc.get("debug_on")))},
+                                 "adaptive": str(label[1] in ("rk23", "rk45")), "debug": str(bool(sc.get("debug_on"))),
+                                 "cache": str(bool(sc.get("cache_on_object")))},
                          "detail": "live tensor count grows every cycle with the cyclic GC disabled: counts=%s "
                                    "(~%.1f tensors per call) functional=%s kind=%s fkind=%s usage=%s persistent=%s; "
                                    "surviving tensors by kind: %s" %
@@ -323,7 +330,8 @@ def run(cs, cfg):
         pn = newborn[2:] if len(newborn) > 4 else newborn[1:]
         if not grow3 and any(all(x > 0 for x in pn[i:i + 3]) for i in range(0, max(len(pn) - 2, 0))):
             viol.append({"sig": {"inv": "per_call_retention", "functional": label[0], "usage": sc["usage"],
-                                 "adaptive": str(label[1] in ("rk23", "rk45")), "debug": str(bool(sc.get("debug_on")))},
+                                 "adaptive": str(label[1] in ("rk23", "rk45")), "debug": str(bool(sc.get("debug_on"))),
+                                 "cache": str(bool(sc.get("cache_on_object")))},
                          "detail": "after every cycle some tensors allocated during that cycle are still alive once all "
                                    "results are released (replaced at the next call, so the count does not grow): new "
                                    "survivors per cycle=%s live counts=%s functional=%s kind=%s fkind=%s usage=%s "
